@@ -267,6 +267,7 @@ fn sets_as_rec(c: &SetsCfg) -> RecCfg {
         bad_kind: c.bad_kind,
         stop_after: None,
         init: false,
+        generic: false,
         reader_init_fails: false,
         rset_fail_at: None,
         rec_fail_at: None,
@@ -573,6 +574,7 @@ fn gen_case(seed: u64, i: u64, only: &Option<String>) -> Case {
                 bad_kind: rng.range(1, 5),
                 stop_after: None,
                 init: rng.chance(1, 2),
+                generic: false,
                 reader_init_fails: false,
                 rset_fail_at: None,
                 rec_fail_at: None,
@@ -603,6 +605,8 @@ fn gen_case(seed: u64, i: u64, only: &Option<String>) -> Case {
                 6 => c.io_fail_at = Some(rng.range(0, 8)),
                 _ => {}
             }
+            // a third of the runs without initialisers go through the generic `parallel_records`
+            c.generic = !c.init && c.seed % 3 == 0;
             Case::Rec(c)
         }
     }
